@@ -44,10 +44,12 @@ Definition of_opt {A} (o : option A) : res A := match o with Some a => Ok a | No
    `out_fail`: whether _match_node marks the match as failed when the pattern node has more outputs than
    the graph node (the pinned source only returns False, leaving a truthy MatchResult).
    `fresh_iter`: whether every output node without op identifier gets its own list of all nodes (the pinned source
-   hands the *same* iterator to all of them; itertools.product drains it for the first). *)
-Record flags := mkF { keep_vb : bool; keep_nb : bool; out_fail : bool; fresh_iter : bool }.
-Definition flags_as_pinned := mkF false false false false.
-Definition flags_fixed := mkF true true true true.
+   hands the *same* iterator to all of them; itertools.product drains it for the first).
+   `attr_fix`: whether AttrConstantPattern.matches answers False for a scalar pattern value against a list-valued
+   attribute (the pinned source evaluates tuple(<scalar>) and raises TypeError). *)
+Record flags := mkF { keep_vb : bool; keep_nb : bool; out_fail : bool; fresh_iter : bool; attr_fix : bool }.
+Definition flags_as_pinned := mkF false false false false false.
+Definition flags_fixed := mkF true true true true true.
 
 Definition all_b (st : stack) := List.concat (map pb (all_partials st)).
 Definition all_vb (st : stack) := List.concat (map pvb (all_partials st)).
@@ -125,21 +127,28 @@ Definition bind_attr_name (name : option string) (b : bval) (st : stack) : res s
   | Some x => of_opt (bind x b st)
   end.
 
-Fixpoint match_attrs (pats : list (string * apat)) (h : hnode) (st : stack) : res stack :=
+(* AttrConstantPattern.matches as the matcher sees it: with the repair the raising combination is `no match` *)
+Definition attr_const_eval (fl : flags) (pat attr : attrval) : option bool :=
+  match attr_const_matches pat attr with
+  | None => if attr_fix fl then Some false else None
+  | r => r
+  end.
+
+Fixpoint match_attrs (fl : flags) (pats : list (string * apat)) (h : hnode) (st : stack) : res stack :=
   match pats with
   | [] => Ok st
   | (name, ap) :: t =>
       match assoc String.eqb name (h_attrs h), ap with
       | None, APConst _ => Fail                                   (* can_match_none is False *)
       | None, APVar x none_ok =>
-          if none_ok then st1 <- bind_attr_name x BNone st ;; match_attrs t h st1 else Fail
+          if none_ok then st1 <- bind_attr_name x BNone st ;; match_attrs fl t h st1 else Fail
       | Some a, APConst c =>
-          match attr_const_matches c a with
+          match attr_const_eval fl c a with
           | None => Err
-          | Some true => match_attrs t h st
+          | Some true => match_attrs fl t h st
           | Some false => Fail
           end
-      | Some a, APVar x _ => st1 <- bind_attr_name x (BAttr name a) st ;; match_attrs t h st1
+      | Some a, APVar x _ => st1 <- bind_attr_name x (BAttr name a) st ;; match_attrs fl t h st1
       end
   end.
 
@@ -147,10 +156,10 @@ Definition no_other_attrs (np : npat) (h : hnode) : bool :=
   forallb (fun na => match assoc String.eqb (fst na) (np_attrs np) with Some _ => true | None => false end)
           (h_attrs h).
 
-Definition node_local (np : npat) (h : hnode) (st : stack) : res stack :=
+Definition node_local (fl : flags) (np : npat) (h : hnode) (st : stack) : res stack :=
   if negb (spat_matches (np_op np) (h_op h)) then Fail else
   if negb (spat_matches (np_dom np) (h_dom h)) then Fail else
-  st1 <- match_attrs (np_attrs np) h st ;;
+  st1 <- match_attrs fl (np_attrs np) h st ;;
   if np_other_attrs np || no_other_attrs np h then Ok st1 else Fail.
 
 (* ------------------------------------------------------------------ _match_value / _match_node *)
@@ -283,7 +292,7 @@ Fixpoint match_node (fuel : nat) (p : pid) (n : nid) (st : stack) : res stack :=
       | None =>
           match nth_error pnodes_tbl p, nth_error (g_nodes g) n with
           | Some np, Some h =>
-              st1 <- node_local np h st ;;
+              st1 <- node_local fl np h st ;;
               let st2 := bind_node p n st1 in
               if (List.length (np_ins np) <? List.length (h_ins h)) && negb (np_other_ins np) then Fail else
               st3 <- match_inputs (match_node f) (np_ins np) (h_ins h) st2 ;;
